@@ -150,6 +150,9 @@ def replace(from_: "ResolvedPos", to: "ResolvedPos", slice: Slice) -> "Node":
     if from_.depth - slice.open_start != to.depth - slice.open_end:
         msg = "Inconsistent open depths"
         raise ReplaceError(msg)
+    if from_.pos > to.pos:
+        msg = "The end of the replaced range lies before its start"
+        raise ReplaceError(msg)
     return replace_outer(from_, to, slice, 0)
 
 
